@@ -52,7 +52,9 @@ def extract(scr, pix):
 
 def chk_identities(inp):
     cases = [("vk", 8, 0.1, 0.2, 20., {"n_columns": 2}), ("vk", 11, 0.25, 0.15, 10., {"n_columns": 3}), ("k", 9, 0.2, 0.2, 15., {"stencil_length_factor": 2}),
-             ("k", 12, 0.15, 0.2, 15., {"stencil_length_factor": 2}), ("k", 20, 0.1, 0.25, 30., {"stencil_length_factor": 1})]
+             ("k", 12, 0.15, 0.2, 15., {"stencil_length_factor": 2}), ("k", 20, 0.1, 0.25, 30., {"stencil_length_factor": 1}),
+             # separations beyond the outer scale (the covariance is small there, not zero)
+             ("vk", 16, 0.5, 0.2, 5., {"n_columns": 2}), ("vk", 12, 1.0, 0.2, 6., {"n_columns": 2}), ("k", 9, 0.5, 0.2, 3., {"stencil_length_factor": 2})]
     for kind, n, pix, r0, L0, kw in cases:
         cls = aotools.PhaseScreenVonKarman if kind == "vk" else aotools.PhaseScreenKolmogorov
         scr = cls(n, pix, r0, L0, random_seed=5, **kw)
